@@ -7,11 +7,15 @@ from ..rules_common import run_witnesses
 
 RULE = (
     "diagrams rendered from random component relations (2-8 components; identifiers, fully qualified dotted names, names "
-    "with blanks in brackets; optional aliases): per component one documented declaration form ([name], component name, "
+    "with blanks in brackets; optional aliases, an alias may be spelled exactly like its component, at components with and "
+    "without arrows): per component one documented declaration form ([name], component name, "
     "component [name], with 'as alias' on the bracketed forms, or no declaration), per arrow one reference form "
     "(bracketed name, bare name, alias) and one arrow form (-->, ->, <--, <-, -text->, <-text-), shuffled line order "
     "(declarations after uses included), noise text outside @startuml/@enduml; plus files without tags. Real "
-    "PumlParser().parse vs PtaModel.pumlParse vs the generating relation. distinct_nontrivial = distinct diagrams with >= 1 "
+    "PumlParser().parse vs PtaModel.pumlParse vs the generating relation. The same diagrams rendered a second time with an "
+    "injective substitution of non-ASCII identifier letters (Latin with diacritics, Cyrillic, Greek, CJK/kana, upper case) "
+    "applied to every spelling of a component name or alias: real parse vs the generating relation under the substitution "
+    "(the model's word characters are ASCII; its twin diagram is the one compared with the model). distinct_nontrivial = distinct diagrams with >= 1 "
     "arrow and >= 1 alias reference."
 )
 
@@ -23,6 +27,19 @@ ARROWS_R = ["-->", "->", "-uses->", "-depends_on->"]
 ARROWS_L = ["<--", "<-", "<-uses-", "<-calls-"]
 NOISE = ["This is documentation.", "' a comment", "title demo", "", "some [text] here", "[outside]", "component outsider", "outsider --> [outside]",
          "see [outside] as o"]
+
+
+# every spelling of a component name or of an alias is rendered between these two marks; the marks are removed for the diagram
+# itself and give the places at which a letter substitution applies (non_ascii_twin)
+_NB, _NE = "\x01", "\x02"
+
+
+def _nm(x):
+    return _NB + x + _NE
+
+
+def _plain(marked):
+    return marked.replace(_NB, "").replace(_NE, "")
 
 
 def gen_diagram(rng):
@@ -59,32 +76,38 @@ def gen_diagram(rng):
             f = rng.choice(["bracket", "comp_bracket"])
             if has_arrows:
                 alias[nme] = f"al{i}"
-        elif f in ("bracket", "comp_bracket") and rng.random() < 0.5:
-            alias[nme] = f"al{i}"
+        elif f in ("bracket", "comp_bracket"):
+            r = rng.random()
+            if r < 0.4:
+                alias[nme] = f"al{i}"
+            elif r < 0.5:
+                # an alias spelled exactly like the component it stands for ([model] as model): legal, and whichever way the
+                # spelling is read it means this component - with or without arrows at the component
+                alias[nme] = nme
         if f == "none" and not has_arrows:
             f = "bracket"
         decl[nme] = f
     lines = []
     for nme in names:
         f = decl[nme]
-        al = f" as {alias[nme]}" if nme in alias else ""
+        al = f" as {_nm(alias[nme])}" if nme in alias else ""
         if f == "bracket":
-            lines.append(f"[{nme}]{al}")
+            lines.append(f"[{_nm(nme)}]{al}")
         elif f == "comp":
-            lines.append(f"component {nme}")
+            lines.append(f"component {_nm(nme)}")
         elif f == "comp_bracket":
-            lines.append(f"component [{nme}]{al}")
+            lines.append(f"component [{_nm(nme)}]{al}")
     alias_refs = 0
     for a, b in sorted(arrows):
         def ref(x):
             nonlocal alias_refs
             opts = []
             if " " not in x:
-                opts += ["[" + x + "]", x]
+                opts += ["[" + _nm(x) + "]", _nm(x)]
             if x in alias:
-                opts.append(alias[x])
+                opts.append(_nm(alias[x]))
             r = rng.choice(opts)
-            if x in alias and r == alias[x]:
+            if x in alias and r == _nm(alias[x]):
                 alias_refs += 1
             return r
         if rng.random() < 0.5:
@@ -98,11 +121,14 @@ def gen_diagram(rng):
         lines = [ln.replace(" ", sep) if rng.random() < 0.7 else ln for ln in lines]
     pre = [rng.choice(NOISE) for _ in range(rng.randint(0, 2))]
     post = [rng.choice(NOISE) for _ in range(rng.randint(0, 2))]
-    text = "\n".join(pre + ["@startuml"] + lines + ["@enduml"] + post)
+    marked = "\n".join(pre + ["@startuml"] + lines + ["@enduml"] + post)
     if rng.random() < 0.3:
-        text += "\n"
+        marked += "\n"
+    self_al = [x for x in names if alias.get(x) == x]
     # the file may be saved with Windows line endings: reading it in text mode gives the same text
-    return {"text": text, "components": sorted(names), "arrows": sorted(arrows), "alias_refs": alias_refs, "crlf": rng.random() < 0.15}
+    return {"text": _plain(marked), "marked": marked, "components": sorted(names), "arrows": sorted(arrows), "alias_refs": alias_refs,
+            "crlf": rng.random() < 0.15, "self_alias": len(self_al),
+            "self_alias_no_arrow": sum(1 for x in self_al if not any(x in e for e in arrows))}
 
 
 def impl_parse(text) -> str:
@@ -130,6 +156,10 @@ def judge(ctx, stream, cases):
         stream.evaluations += 1
         m = a.get("M", "?")
         stream.count("impl:" + i.split(":")[0])
+        if c.get("self_alias"):
+            stream.count("alias spelled like its component")
+        if c.get("self_alias_no_arrow"):
+            stream.count("alias spelled like its component, component at no arrow")
         if c.get("arrows") and c.get("alias_refs"):
             stream.nontrivial.add(digest(c["text"]))
         if len(ctx.samples) < 2 and c.get("alias_refs", 0) >= 2:
@@ -157,6 +187,108 @@ def judge(ctx, stream, cases):
             if len(ctx.broken) < 10:
                 ctx.broken.append({"kind": "correspondence-broken", "what": "correspondence PumlParser.parse = PtaModel.pumlParse",
                                    "theorem": "Pta.C06.* are statements about PtaModel.pumlParse", "text": c["text"], "impl": i, "model": m})
+
+
+# ------------------------------------------------------------------------------- names in other alphabets
+# Identifiers - hence module names - may contain letters outside ASCII (PEP 3131).  The model's word characters are ASCII, so
+# these diagrams are not sent to it: a diagram of the stream above (which IS compared with the model) is rendered a second
+# time with an injective substitution of letters applied to every spelling of a component name or alias - and to nothing
+# else - and must parse to the generating relation under that substitution, i.e. to the image of what its ASCII twin gives.
+ALPHABETS = {
+    "latin": "äöüßéèêñçåøæœšžłőđþ",
+    "cyrillic": "абвгдежзиклмнопрстуфхцчшыэюя",
+    "greek": "αβγδεζηθικλμνξπρστυφχψω",
+    "cjk-kana": "模型数据库核心层あいうえおカキクケコ",
+    "upper": "ÄÖÜÉÑÇÅØÆŠŽŁБГДЖЗИЛПФЦЧШЭЮЯΓΔΘΛΞΠΣΦΨΩ",
+}
+
+
+def _letters_ok(chars):
+    import re as _re
+    import unicodedata
+
+    ok = []
+    for ch in chars:
+        # a letter that may stand anywhere in an identifier, is a word character, is one character in every normal form
+        if ord(ch) > 127 and ch.isidentifier() and _re.fullmatch(r"\w", ch) and not ch.isdigit() \
+                and all(unicodedata.normalize(f, ch) == ch for f in ("NFC", "NFKC")) and ch not in ok:
+            ok.append(ch)
+    return ok
+
+
+def gen_substitution(rng, d):
+    """injective map: some (>= 1) of the ASCII letters that occur in the names / aliases of diagram d -> non-ASCII letters"""
+    import re as _re
+
+    used = sorted({ch for spelling in _re.findall(_NB + "(.*?)" + _NE, d["marked"]) for ch in spelling if ch.isascii() and ch.isalpha()})
+    kind = rng.choice(sorted(ALPHABETS) + ["any"])
+    pool = _letters_ok("".join(ALPHABETS.values()) if kind == "any" else ALPHABETS[kind])
+    how = rng.choice(["one", "some", "all"])
+    k = 1 if how == "one" else len(used) if how == "all" else rng.randint(1, len(used))
+    src = rng.sample(used, min(k, len(pool)))
+    dst = rng.sample(pool, len(src))
+    return dict(zip(src, dst)), kind, how
+
+
+def non_ascii_twin(rng, d):
+    import re as _re
+
+    sub, kind, how = gen_substitution(rng, d)
+
+    def tr(x):
+        return "".join(sub.get(ch, ch) for ch in x)
+
+    text = _re.sub(_NB + "(.*?)" + _NE, lambda m: tr(m.group(1)), d["marked"])
+    comps = sorted(tr(x) for x in d["components"])
+    assert len(set(comps)) == len(comps) and all(part.isidentifier() for x in comps for w in x.split(" ") for part in w.split("."))
+    return dict(d, text=text, ascii_text=d["text"], components=comps, arrows=sorted((tr(a), tr(b)) for a, b in d["arrows"]),
+                sub=sub, alphabet=kind, how=how, tr_ascii_components=d["components"], tr_ascii_arrows=d["arrows"])
+
+
+def _want(components, arrows):
+    deps = {}
+    for x, y in arrows:
+        deps.setdefault(x, set()).add(y)
+    return "OK:" + ",".join(sorted(enc(x) for x in components)) + "|" + ";".join(
+        sorted(enc(k) + "~" + ",".join(sorted(enc(v) for v in vs)) for k, vs in deps.items()))
+
+
+def _impl_pair(case):
+    return _impl(case), impl_parse(case["ascii_text"].replace("\n", "\r\n") if case.get("crlf") else case["ascii_text"])
+
+
+def judge_twins(ctx, stream, cases):
+    import locale
+
+    try:
+        for c in cases[:50]:
+            c["text"].encode(locale.getpreferredencoding(False))
+    except (UnicodeEncodeError, LookupError):
+        # the library reads the file with the platform's default encoding; where that cannot hold the letters there is no such file
+        stream.count("skipped: default encoding cannot hold the letters", len(cases))
+        return
+    res = pmap(_impl_pair, cases, ctx.jobs, chunk=100)
+    for c, (i, i_ascii) in zip(cases, res):
+        stream.evaluations += 1
+        stream.count("impl:" + i.split(":")[0])
+        stream.count("alphabet:" + c["alphabet"])
+        stream.count("letters substituted:" + c["how"])
+        if c.get("self_alias"):
+            stream.count("alias spelled like its component")
+        if c["arrows"]:
+            stream.nontrivial.add(digest(c["text"]))
+        bad = None
+        if i != _want(c["components"], c["arrows"]):
+            bad = "a diagram whose component names have letters outside ASCII: parsed components / dependencies differ from the diagram that was drawn"
+        elif i_ascii != _want(c["tr_ascii_components"], c["tr_ascii_arrows"]):
+            bad = "parsed components / dependencies differ from the diagram that was drawn"
+        if bad:
+            ctx.violations.append({"kind": "property-violation", "what": bad, "text": c["text"], "impl": i,
+                                   "same_diagram_in_ascii": c["ascii_text"], "impl_on_ascii": i_ascii, "substitution": c["sub"],
+                                   "expected_components": c["components"], "expected_arrows": c["arrows"],
+                                   "python": f"from harness.props.c06 import impl_parse; print(impl_parse({c['text']!r}))"})
+            if len(ctx.violations) >= 3:
+                return
 
 
 def _one_parser(texts):
@@ -241,6 +373,12 @@ def run(ctx: Ctx):
             t = t.replace("@", "")
         bad.append({"text": t, "malformed": True})
     judge(ctx, s, bad)
+    s.finish()
+    s = Stream(ctx, "the same diagrams with an injective substitution of non-ASCII identifier letters in every component name and alias "
+                    "vs the generating relation under the substitution")
+    rng_u = ctx.rng("other-alphabets")
+    twins = [non_ascii_twin(rng_u, gen_diagram(rng_u)) for _ in range(ctx.size(2500, 60000))]
+    judge_twins(ctx, s, twins)
     s.finish()
     if not ctx.violations:
         s = Stream(ctx, "one PumlParser object over several files (aliases of an earlier file re-used as component names later) vs a fresh parser per file")
